@@ -1,13 +1,20 @@
 (* C09  MPS output reads back as the same problem, and LP and MPS renderings agree.
-   Level reached: proof of the sub-codecs + exploration with a verified oracle.
-   PROVED: numbers (read_print_num); the interval stored by transferRanges is the documented one for
-   every sense and sign (ranges_semantics); an internal R row written as G + RANGES comes back as
-   the same R row when its range is not zero (write_then_transfer_id) - and does NOT when it is zero
-   (zero_range_lost_refuted, replayed on the real writer); bound types follow the same default rules
-   as the LP format (bounds_roundtrip); the oracle (equiv_by_name_sound).
-   NOT PROVED: the section state machine, field splitting, marker lines (explored only); the target
+   Level reached: line-level model of the MPS WRITER (IO/MpsWrite.v, compared byte for byte with mpq_QSwrite_prob(.., "MPS")
+   on every file written in the run) + proof that the reader-side semantics already modelled, applied to the written
+   sections, gives back the problem + exploration of the real round trip with the verified oracle.
+   PROVED (record level, all problems): C09_mps_sections_roundtrip_partial - the ROWS / COLUMNS (with INTORG / INTEND
+   markers) / RHS / RANGES / BOUNDS sections the writer model builds denote, under the reader's rules (RHS default 0,
+   transferRanges for a RANGES entry, the bound setters + ILLraw_fill_in_bounds for FX FR MI LO PL UP, markers for
+   integrality), the problem written: same columns in order with the same entries, objective, bounds and marks, same
+   used rows with sense, right hand side and range, every number equal as a rational; rows without entries dropped.
+   Its parts: C09_mps_bounds_records, C09_mps_rows, C09_mps_markers.  Also as before: numbers, ranges_semantics,
+   bounds_roundtrip, the oracle.
+   C09_write_then_transfer_id / C09_zero_range_lost_refuted describe the writer as first found (an R row with range 0
+   lost its RANGES entry, repaired in /repo 6798a87); IO/MpsWrite.range_entry models the repaired writer.
+   "partial": there is no model of the MPS READER's tokenizer (fields, set names, section state machine, number
+   scanning inside records): the statement is about sections as data, not about read_mps (write_mps P).
    lp_mps_agree is evaluated as the executable comparison on every generated problem. *)
-From QSX Require Import IO.Num IO.NumSound IO.Bounds IO.Equiv IO.Ranges.
+From QSX Require Import LP.User IO.Num IO.NumSound IO.Bounds IO.Equiv IO.Ranges IO.LpWrite IO.MpsWrite.
 From Coq Require Import List QArith.
 Import ListNotations.
 Local Open Scope Q_scope.
@@ -47,3 +54,39 @@ Theorem C09_oracle_sound_partial :
   (forall v, nfeasible M P v -> nfeasible M P' v) /\ (empty_ok P -> forall v, nfeasible M P' v -> nfeasible M P v).
 Proof. exact equiv_by_name_sound. Qed.
 Print Assumptions C09_oracle_sound_partial.
+
+(* ---- the MPS writer model and what its sections denote --------------------------------------------------------------- *)
+
+Theorem C09_mps_bounds_records :
+  forall M lo up isint, 0 < M -> lo <= up ->
+  let r := decode_records M (mps_records M lo up isint) isint in fst r == lo /\ snd r == up.
+Proof. exact mps_bounds_roundtrip. Qed.
+Print Assumptions C09_mps_bounds_records.
+
+Theorem C09_mps_rows :
+  forall M P, rows_wf P ->
+  Forall2 row_same_q (filter (row_used (m_cols P)) (m_rows P))
+          (map (denote_row (sections_of M P)) (sec_rows (sections_of M P))).
+Proof. exact mps_rows_roundtrip. Qed.
+Print Assumptions C09_mps_rows.
+
+Theorem C09_mps_markers :
+  forall hasint objname cols ri mode seen,
+  (hasint = true \/ (mode = false /\ forallb (fun c => negb (mc_int c)) cols = true)) ->
+  forallb col_nonempty cols = true ->
+  NoDup (map mc_name cols) -> (forall c, In c cols -> existsb (leqb (mc_name c)) seen = false) ->
+  marks_denote (col_items hasint objname cols ri mode) mode seen = map (fun c => (mc_name c, mc_int c)) cols.
+Proof. exact mps_markers_roundtrip. Qed.
+Print Assumptions C09_mps_markers.
+
+Theorem C09_mps_sections_roundtrip_partial :
+  forall M P, 0 < M -> cols_wf P -> rows_wf P ->
+  let S := sections_of M P in
+  Forall2 col_same_q (m_cols P) (map (denote_col M S) (marks_denote (sec_cols S) false [])) /\
+  Forall2 row_same_q (filter (row_used (m_cols P)) (m_rows P)) (map (denote_row S) (sec_rows S)).
+Proof. exact mps_sections_roundtrip. Qed.
+Print Assumptions C09_mps_sections_roundtrip_partial.
+
+(* the hypotheses are satisfiable (integer column with lower 0 and no upper bound, ranged row, unused row) *)
+Example C09_mps_wf_satisfiable : exists P : mlp, cols_wf P /\ rows_wf P.
+Proof. eexists. exact (proj2 write_mps_example). Qed.
